@@ -34,8 +34,8 @@ print options (no_wrap=True; justify/overflow), as the cell of an outer grid col
 (no_wrap / fixed width / ratio) and inside Panel / Padding -- see render_ctx().
 
 Bounds and cost (measured; the machine was shared, so CPU seconds are the reliable number):
-quick    31.7 k tables, 406.8 k renders, ~2.9 k distinct outcomes, ~800 CPU-s (80 s wall with 16 workers at
-         load average ~11; ~55 s on 16 idle cores);
+quick    34.8 k tables, ~450 k renders, ~3.0 k distinct outcomes, ~950 CPU-s (~65 s on 16 idle cores; 210 s wall
+         measured with 16 workers at load average ~45);
 thorough not re-measured after families C/J and the 13-entry menu were added (the last full run, before the
          asymmetric paddings, was 242 k tables / 3.05 M renders / 9.3 k CPU-s; estimated now ~14 k CPU-s, ~15 min
          on 16 idle cores).
@@ -53,7 +53,7 @@ from ..width import cw, sw
 ID = "C07"
 LEVEL = "exploration"
 ENGINE = "E1"
-CAP_S = {"quick": 600, "thorough": 2400}
+CAP_S = {"quick": 900, "thorough": 2400}
 TECHNIQUE = ("bounded-exhaustive enumeration of table descriptions (shape x cell filling x deviation-bounded "
              "option vectors x every width from the structural minimum) on the real Table, judged by an "
              "independent rectangle / column-span / row-block reference")
@@ -82,16 +82,20 @@ V_LEVELS = (1, 3, 6)           # head, mid, foot
 # The unbroken runs of double-width characters make a fold column break wide characters
 # over >=3 lines at odd as well as even text widths (a line that *starts* with a wide
 # character is a code path of its own in chop_cells); "aあいうえお" shifts the parity.
-PLAIN = ["a", "あいうえお", "あい うえ おか きく", "ab cd", "aあいうえお", "a\u2705 \u2b50b \u26a1", "あい",
-         "a あい b うえお c", "a\nbb c", "", "abcdefgh"]
+PLAIN = ["a", "あいうえお", "あい うえ おか きく", "ひか\u3099 しろ", "ab cd", "aあいうえお", "cafe\u0301 ole\u0301",
+         "a\u2705 \u2b50b \u26a1", "あい", "a あい b うえお c", "a\nbb c", "", "abcdefgh"]
+# "ひか\u3099 しろ" / "cafe\u0301 ole\u0301": zero-width combining marks (U+3099 on a wide base, U+0301 on a
+# narrow base, as NFD text has them) as the last character of a word that is followed by a space
+# and as the last character of the cell; over the width range the word exactly fills the column.
+# A mark is a non-whitespace character of the cell like any other.
 # "あい うえ おか きく" / "a あい b うえお c": >=3 space-separated words of double-width (and mixed)
 # characters: they wrap at word boundaries, so justify x fold meets wide words on full lines.
 # U+2705, U+2B50, U+26A1 are double-width code points that have a CELL_WIDTHS entry of their own
 # (start == end): a lookup that mishandles range ends mis-measures exactly these.
 MENU = PLAIN + ["P", "T"]
-OFF2 = 5          # second filling offset (offset 0 is the first)
+OFF2 = 6          # second filling offset (offset 0 is the first)
 # family A enumerates every filling; shapes with >=3 cells draw from this reduced menu
-A_MENU = ["a", "あいうえお", "あい うえ おか きく", "ab cd", "a\u2705 \u2b50b \u26a1", "P"]
+A_MENU = ["a", "あいうえお", "あい うえ おか きく", "ひか\u3099 しろ", "a\u2705 \u2b50b \u26a1", "P"]
 NESTED_NEED = 5
 T_CHARS = "╔═══╗║y║╚═══╝"
 P_RE = re.compile(r"^╔(═*)╗║x║╚(═*)╝$")
@@ -289,7 +293,7 @@ def impl_widths(desc, W):
 # table a known width A (for "grid:no_wrap" A is read from the output: the outer column is as
 # wide as the outer table's lines), so all clauses apply unchanged with W := A.
 CONTEXTS = ["plain", "opt:no_wrap", "opt:justify+overflow", "grid:no_wrap", "grid:width", "grid:ratio",
-            "panel", "padding"]
+            "panel", "padding", "print:crop"]
 
 
 def _join_lines(segments):
@@ -302,6 +306,17 @@ def _join_lines(segments):
 
 def _region(lines, a, b):
     return ["".join(_cells_of(l)[a:b]) for l in lines]
+
+
+_PRINT_CONSOLES = {}
+
+
+def _print_console(W):
+    if W not in _PRINT_CONSOLES:
+        from rich.console import Console
+        _PRINT_CONSOLES[W] = Console(file=io.StringIO(), width=W, height=25, force_terminal=False, color_system=None,
+                                     legacy_windows=False, _environ={})
+    return _PRINT_CONSOLES[W]
 
 
 def render_ctx(desc, W, ctx):
@@ -319,6 +334,15 @@ def render_ctx(desc, W, ctx):
         return _join_lines(con.render(table, opts.update(width=W, no_wrap=True))), W
     if ctx == "opt:justify+overflow":    # console.print(table, justify="full", overflow="crop")
         return _join_lines(con.render(table, opts.update(width=W, justify="full", overflow="crop"))), W
+    if ctx == "print:crop":              # Console(width=W).print(table): the final crop to the console width
+        pc = _print_console(W)
+        pc.file.seek(0)
+        pc.file.truncate()
+        pc.print(table)
+        lines = pc.file.getvalue().split("\n")
+        if lines and lines[-1] == "":
+            lines.pop()
+        return lines, W
     if ctx.startswith("grid:"):
         outer = Table.grid(expand=(ctx == "grid:ratio"))
         if ctx == "grid:no_wrap":
@@ -387,7 +411,7 @@ def _cells_of(line):
 
 
 def _nonws(cells, a, b):
-    return "".join(c for c in cells[a:b] if c and not c.isspace())
+    return "".join(ch for c in cells[a:b] for ch in c if not ch.isspace())
 
 
 def _is_subseq(small, big):
@@ -493,7 +517,7 @@ def judge(desc, W, lines):
         want_count = (n - 1) + (2 if (show_edge and edge_visible) else 0)
         ref_pos = None
         for i in content_idx:
-            pos = [p for p, ch in enumerate(cells[i]) if ch in vset]
+            pos = [p for p, ch in enumerate(cells[i]) if ch[:1] in vset]      # a mark may ride on a divider
             if ref_pos is None:
                 ref_pos = pos
             if pos != ref_pos or len(pos) != want_count:
@@ -570,7 +594,12 @@ def judge(desc, W, lines):
             return got == want
         return _is_subseq(got.replace("…", ""), want)
 
-    span_text = [[_nonws(cells[i], a, b_) for a, b_ in spans] for i in range(len(body))]
+    def _span_chars(cl, a, b_):
+        # a zero-width mark at the very start of a span is stored with the cell before it (the divider)
+        lead = cl[a - 1][1:] if 0 < a <= len(cl) and len(cl[a - 1]) > 1 else ""
+        return "".join(ch for ch in lead if not ch.isspace()) + _nonws(cl, a, b_)
+
+    span_text = [[_span_chars(cells[i], a, b_) for a, b_ in spans] for i in range(len(body))]
     blank = [not s and not any(span_text[i]) for i, s in enumerate(is_sep)]
     flex = any(_copt(desc, i, "ratio") is not None for i in range(n))
     ample = avail >= ample_min(desc) and not flex
@@ -935,7 +964,7 @@ def run_case(desc, W, res, ctx="plain"):
         res.violate(_crash_key(exc), case, "".join(traceback.format_exception_only(type(exc), exc)).strip())
         res.sig(("crash",))
         return
-    nested = ctx.split(":")[0] in ("grid", "panel", "padding")
+    nested = ctx.split(":")[0] in ("grid", "panel", "padding", "print")    # something around the table crops it
     tw = _topt(desc, "width")
     if nested and tw is not None and tw > avail:
         # a container crops a table that insists on being wider than the room: harness artefact
@@ -1001,7 +1030,7 @@ def describe(tier, seed, res):
                 "2 columns %s; family C: the <=k-deviation tables of family O (fold, offset 0) for %s in every non-plain "
                 "render context. Render contexts %r: plain; console.print(table, no_wrap=True); console.print(table, "
                 "justify='full', overflow='crop'); the table as the only cell of an outer Table.grid whose column has "
-                "no_wrap=True / width=W / ratio=1 (grid expanded); inside Panel; inside Padding((1,2,0,1)). The outer "
+                "no_wrap=True / width=W / ratio=1 (grid expanded); inside Panel; inside Padding((1,2,0,1)); Console(width=W).print(table) read back from the file (final crop). The outer "
                 "width is chosen so that the table is given exactly W cells (grid:no_wrap: the width is read from the "
                 "outer lines), the container's padding is removed and all clauses apply with that width; a failure is "
                 "reported under key+'@render-context' only when the plain rendering at the same width passes%s. "
